@@ -398,3 +398,21 @@ Theorem C01_pst13_batch_complete :
     pst_batch_check nv betas cs qs ev pfs chal vtape = Ok (true, rest, length (groups qs)).
 Proof. exact @pst13_batch_complete. Qed.
 Print Assumptions C01_pst13_batch_complete.
+
+(* IPA batch flows at the trait level (free-module view), end to end: commitments made by commit (iR: the verifier's entry for a
+   label is the commitment and degree bound of the prover's item, which commit produced), a key whose size is a power of two (as
+   trim makes it), non-zero hash-derived round challenges: the proofs of batch_open are accepted by IPA's own batch_check for the
+   true evaluations, whatever randomizers the verifier draws; same transcript positions; one randomizer per group *)
+From PC Require Import Schemes.IPABatch Proofs.IPABatchComplete.
+Theorem C01_ipa_batch_complete :
+  forall (FO : FieldOps) (FL : FieldLaws FO) d,
+    (d + 1 = 2 ^ Nat.log2_up (d + 1))%nat ->
+    forall items cs qs ev chal hchal rng vtape pfs rest hrest rng',
+    maps_agree (IComm * option nat) IItem (iR d) (label_map items) (label_map cs) ->
+    Forall (fun rc => rc <> 0) hchal ->
+    (forall pl pt labels, In (pl, (pt, labels)) (groups qs) -> evals_true IItem ivalue (label_map items) ev pt labels) ->
+    (length (groups qs) <= length vtape)%nat ->
+    i_batch_open d items qs (chal, hchal, rng) = Ok (pfs, (rest, hrest, rng')) ->
+    i_batch_check d cs qs ev pfs chal hchal vtape = Ok (true, rest, hrest, length (groups qs)).
+Proof. exact @ipa_batch_complete_e2e. Qed.
+Print Assumptions C01_ipa_batch_complete.
